@@ -70,6 +70,8 @@ class WHooks:
         if ev.kind == 'observe' and ev.extra == 'writer_dropped':
             S['wdropped:' + t.name] = z3.BoolVal(True)
             return True
+        if ev.kind == 'observe':
+            return True
         return False
 
     def observe(self, enc, ev, S, t, k, g, b):
@@ -108,6 +110,8 @@ def kernel_bmc(S, rep, tier, seed, prop='C01'):
                 op = it.ctx.choose(3, 'op')
                 if op == 0:
                     break
+                # the operation the handler starts (read back by the schedule replay; not a scheduling point)
+                w.emit('observe', 'obs', [bv(op)], extra='op_write' if op == 1 else 'op_flush')
                 if op == 1:
                     it.run_fn(f_write, [Ref(wc, (), True), const_str(b'x', False)])
                 else:
@@ -169,15 +173,12 @@ def replay_writers(L, v, rep, info, names):
         for (t, o, p) in ops:
             if t != nme:
                 continue
-            if o == 'sink_write':
+            if o == 'observe' and p.get('what') == 'op_write':
                 words.append('write')
-            elif o == 'sink_flush':
+            elif o == 'observe' and p.get('what') == 'op_flush':
                 words.append('flush')
             elif o == 'observe' and p.get('what') == 'writer_dropped':
                 words.append('drop')
-        mine = [(o, p) for (t, o, p) in ops if t == nme]
-        if mine and 'drop' not in words and mine[-1][0] not in ('sink_write', 'sink_flush', 'unlock'):
-            words.append('write')      # parked (or stopped) inside an operation whose kind the schedule does not show
         threads.append((nme, ' ; '.join(words) if words else 'sleep 1'))
     pred = {'sink': [(t, 'write' if o == 'sink_write' else 'flush') for (t, o, p) in ops if o in ('sink_write', 'sink_flush')],
             'parked': []}
